@@ -660,6 +660,12 @@ static int parse_complete(token_t *tok)
         next_token(tok);
         goto modifiers;
 
+    case TOK_CONST:
+    case TOK_VOLATILE:
+        /* qualifiers may stand between the specifiers: 'long const int' */
+        next_token(tok);
+        goto modifiers;
+
     default:
         break;
     }
